@@ -277,7 +277,10 @@ func (bs *blockState) instr(ins ssa.Instruction) {
 	case *ssa.Go:
 		bs.goInstr(x)
 	case *ssa.MakeChan:
-		e.regs[x] = Val{x.Type(), []string{e.allocRef(bs.st, bs.g, "chan")}}
+		ref := e.allocRef(bs.st, bs.g, "chan")
+		e.regs[x] = Val{x.Type(), []string{ref}}
+		// the buffer size of the new channel (cap(ch) in contracts)
+		e.assume(bs.g, eq(app("chancap", ref), bs.val(x.Size).C[0]))
 	case *ssa.Send:
 		bs.chanOp("send", []Val{bs.val(x.Chan), bs.val(x.X)}, x, nil)
 	case *ssa.Select:
